@@ -52,7 +52,7 @@ def validate(prop, n):
         os.remove(f"{wt}/{dest}")
         caught = {}
         for p in PROPS:
-            rc, out = sh(f"VERIF_NOEVIDENCE=1 /verif/bin/sdfxlint check -p {p} -repo {wt}", "/verif", 300)
+            rc, out = sh(f"VERIF_NOEVIDENCE=1 {BIN} check -p {p} -repo {wt}", "/verif", 300)
             if rc != 0:
                 rules = sorted(set(re.findall(r"rule=(\S+) construct=(\S+)", out)))
                 caught[p] = {"exit": rc, "rules": [f"{a} {b}" for a, b in rules][:8]}
@@ -80,7 +80,8 @@ def validate(prop, n):
 
 STAGE = sys.argv[1]
 FIRST = int(sys.argv[2])
-PROPS = subprocess.run("/verif/bin/sdfxlint list", shell=True, capture_output=True, text=True).stdout.split()
+BIN = os.environ.get("BIN", "/verif/bin/sdfxlint")
+PROPS = subprocess.run(BIN + " list", shell=True, capture_output=True, text=True).stdout.split()
 if __name__ == "__main__":
     props = sys.argv[3:] or ["C%02d" % i for i in range(1, 21)]
     jobs = [(p, n) for p in props for n in (1, 2)]
